@@ -4,8 +4,10 @@ import (
 	"bytes"
 	"encoding/binary"
 	"fmt"
+	"io"
 	"runtime/metrics"
 	"strings"
+	"testing/iotest"
 	"time"
 
 	"github.com/Eyevinn/mp4ff/mp4"
@@ -217,6 +219,25 @@ func e1EvalBoxInner(x []byte, p e1Props) (fails []e1Fail, accepted bool, box mp4
 			fails = append(fails, e1Fail{"C03", "SR-path fixed point rejected by reader path: " + errRoot(errRD), "a byte string the SliceReader path reproduces exactly is accepted by the io.Reader path", typ + ": " + fmt.Sprint(errRD)})
 		} else if d := deepeq.Diff(bSR, bRD, &deepeq.Options{Ignore: c01Ignore}); d != "" {
 			fails = append(fails, e1Fail{"C03", "decoders give different structures " + typ + " " + fieldOf(d), "both decode paths yield equivalent structures", d})
+		} else {
+			// the io.Reader path with readers that use the freedom of the io.Reader contract: one byte per Read call,
+			// and the last data returned together with io.EOF
+			for ri, mk := range []func() io.Reader{
+				func() io.Reader { return iotest.OneByteReader(bytes.NewReader(x)) },
+				func() io.Reader { return iotest.DataErrReader(bytes.NewReader(x)) },
+			} {
+				var b2 mp4.Box
+				var err2 error
+				if pan := call(func() { b2, err2 = mp4.DecodeBox(0, mk()) }); pan != "" {
+					continue // reported by C04 on the plain reader if it is input dependent
+				}
+				rname := []string{"one byte per Read", "data together with EOF"}[ri]
+				if err2 != nil || b2 == nil {
+					fails = append(fails, e1Fail{"C03", "reader path rejects a fixed point when the reader returns " + rname + ": " + errRoot(err2), "the io.Reader path accepts the same bytes from any reader that honours the io.Reader contract", typ + ": " + fmt.Sprint(err2)})
+				} else if d := deepeq.Diff(bRD, b2, &deepeq.Options{Ignore: c01Ignore}); d != "" {
+					fails = append(fails, e1Fail{"C03", "reader path gives a different structure when the reader returns " + rname + " " + typ + " " + fieldOf(d), "the io.Reader path yields the same structure from any reader that honours the io.Reader contract", d})
+				}
+			}
 		}
 	}
 	return fails, accepted, bSR, encSR
